@@ -220,6 +220,16 @@ structure Node where
   finish : Int
   deriving Repr, Inhabited, DecidableEq
 
+/-- Specification data only (the generator never reads it): what a SCHEDULED task that is not
+re-offered will occupy. -/
+structure Reservation where
+  worker : Nat
+  res : String
+  qty : Nat
+  from_ : Int
+  to_ : Int
+  deriving Repr, Inhabited
+
 structure Inst where
   now : Int
   workers : List WorkerI           -- bit order: worker k ↔ key `2**k`
@@ -227,6 +237,7 @@ structure Inst where
   nodes : List Node
   edges : List (String × String)   -- (parent, child); for one child in `get_parents` order
   enforceDeadlines : Bool
+  reserved : List Reservation := []
   deriving Repr, Inhabited
 
 inductive Var where
@@ -569,6 +580,15 @@ def Inst.active (I : Inst) (σ : Assign Var) (w : Nat) (τ : Int) : List Nat :=
 /-- Units of resource `r` in use on worker `w` at instant `τ` by the decided tasks. -/
 def Inst.load (I : Inst) (σ : Assign Var) (w : Nat) (r : String) (τ : Int) : Nat :=
   nsum ((I.active σ w τ).map (fun t => I.req t w r))
+
+/-- Units of `r` on worker `w` reserved at `τ` by SCHEDULED tasks that are not part of the call. -/
+def Inst.reservedAt (I : Inst) (w : Nat) (r : String) (τ : Int) : Nat :=
+  nsum ((I.reserved.filter (fun x => x.worker == w && x.res == r && decide (x.from_ ≤ τ) && decide (τ < x.to_))).map
+    (fun x => x.qty))
+
+/-- No offered task has started (non-preemptive `get_schedulable_tasks`). -/
+def Inst.wfStates (I : Inst) : Bool :=
+  I.tasks.all (fun t => t.state == .virtual || t.state == .released || t.state == .scheduled)
 
 /-- Executable form of `C10_Z3.jointly_feasible` at the start instants of the placed tasks
 (loads only change there). -/
